@@ -26,7 +26,9 @@ TARGETS = ['selfies/grammar_rules.py::next_atom_state',
            'selfies/grammar_rules.py::process_branch_symbol',
            'selfies/grammar_rules.py::process_ring_symbol',
            'selfies/grammar_rules.py::process_atom_symbol',
-           'selfies/grammar_rules.py::_process_atom_selfies_no_cache']
+           'selfies/grammar_rules.py::_process_atom_selfies_no_cache',
+           'selfies/decoder.py::_tokenize_selfies',
+           'selfies/utils/selfies_utils.py::split_selfies']
 EXPLANATION = (
     "Mixed. PROVED: exception-freedom obligations (index in range, key present, None receivers, asserts, unpack "
     "arity, division by zero) generated at every raising operation of the functions under contract listed in "
